@@ -33,7 +33,7 @@ def strategy(tier):
         mode = draw(st.sampled_from(["box", "box", "truth", "zero-bound"]))
         kinds = ["Square", "Normal"] if mode in ("truth", "zero-bound") else lossgen.KINDS
         c = draw(lossgen.loss_case(kinds=kinds, weights=(mode != "truth"), target_param="subset-ordered", max_states=3,
-                                   n_times=(4, 8), allow_time=False))
+                                   n_times=(4, 8), allow_time=False, catalogue=2))
         c["mode"] = mode
         if mode == "truth":
             c["noise"] = 0.0
@@ -59,6 +59,8 @@ def strategy(tier):
             lo.append(a)
             hi.append(b)
             start.append(min(max(s0, a), b))
+        if mode == "zero-bound" and m.get("catalogue"):
+            c["mode"] = mode = "box"        # catalogue parameters sit in denominators (N, c): no sign changes there
         if mode == "zero-bound":
             # one side of the box is exactly zero (the most common bound there is) and the optimum lies beyond it, so the
             # bound has to be active: data are generated with parameter k on the other side of zero
